@@ -132,6 +132,10 @@ pub struct ConnCfg {
     pub inflight_middleware: bool,
     /// server roles: go through the version-sniffing `ntex_mqtt::MqttServer`
     pub combined: bool,
+    /// combined server: protocol_version_timeout(0) - no deadline for the protocol-version detection
+    pub version_timeout_off: bool,
+    /// keep-alive configured at the I/O layer (`IoConfig`), the default a dispatcher starts from
+    pub io_keepalive: Option<u16>,
     /// bytes the endpoint may write before the peer "stops reading" (None = unlimited)
     pub initial_write_budget: Option<usize>,
     /// v5 client role: Topic Alias Maximum the library's CONNECT advertises (None = property absent)
@@ -171,6 +175,8 @@ impl ConnCfg {
             router: vec![],
             inflight_middleware: true,
             combined: false,
+            version_timeout_off: false,
+            io_keepalive: None,
             initial_write_budget: None,
             client_topic_alias_max: None,
             client_receive_max_unset: false,
@@ -197,9 +203,15 @@ impl ConnCfg {
             // combined server: the protocol-version detection has its own deadline
             m = m.protocol_version_timeout(Seconds(self.connect_timeout));
         }
+        if self.version_timeout_off {
+            m = m.protocol_version_timeout(Seconds::ZERO);
+        }
         let mut io = IoConfig::new().set_disconnect_timeout(Seconds(self.disconnect_timeout));
         if let Some((h, l)) = self.write_buf {
             io = io.set_write_buf(h, l, 16);
+        }
+        if let Some(k) = self.io_keepalive {
+            io = io.set_keepalive_timeout(Seconds(k));
         }
         if let Some((t, mt, r)) = self.frame_read_rate {
             io = io.set_frame_read_rate(Seconds(t), Seconds(mt), r);
@@ -215,9 +227,9 @@ impl ConnCfg {
             static CFGS: RefCell<std::collections::HashMap<String, SharedCfg>> = RefCell::new(std::collections::HashMap::new());
         }
         let key = format!(
-            "{tag}|{}|{}|{}|{}|{}|{}|{}|{}|{:?}|{}|{:?}|{}|{:?}",
+            "{tag}|{}|{}|{}|{}|{}|{}|{}|{}|{:?}|{}|{:?}|{}|{:?}|{}|{:?}",
             self.max_qos, self.max_size, self.max_receive, self.max_receive_size, self.max_topic_alias, self.max_send, self.min_chunk_size,
-            self.max_payload_buffer, self.handle_qos_after_disconnect, self.connect_timeout, self.write_buf, self.disconnect_timeout, self.frame_read_rate
+            self.max_payload_buffer, self.handle_qos_after_disconnect, self.connect_timeout, self.write_buf, self.disconnect_timeout, self.frame_read_rate, self.version_timeout_off, self.io_keepalive
         );
         CFGS.with(|c| c.borrow_mut().entry(key).or_insert_with(|| self.build_shared_cfg(tag)).clone())
     }
